@@ -440,6 +440,10 @@ var goExprs = []string{"a", "b", `"s"`, "a + b", "fmt.Sprint(a)", `T{A: "x"}.S`,
 	`fmt.Sprintf("%s{%d}", a, 1)`, "T{\n\t\tA: a,\n\t}.S", "f(func() { g() })", "a == b", "len(xs) > 0", "!ok", "i := 0; i < 3; i++", "_, x := range xs", "i := range 3", "x := v.(type)",
 	"é", `"é世" + a`, "templ.KV(a, true)", `templ.Attributes{"a": a}`, "comp(a, b)", "pkg.Comp{A: a}.View()", "comps[0]", "T[string]{V: a}.View()", "a[len(a)-1:]", "*p", "&T{}", "<-ch", "-1", "^x", "a<<2"}
 
+// goConts: template text that a Go parser would take as the continuation of the expression in
+// front of it.
+var goConts = []string{".A", ".A{ a }", ".A{A{ \"0\" }}", ".b{ T{} }", "(a)", "[0]", "{ b }", "{ T{A: a}.S }", "+ b", ".(string)", "...", ", b }", "}", "{", " }", ".A }", "{}", "{{ a }}", "[]T{}", "()"}
+
 // genGoShaped puts token sequences into every position where templ expects Go: string
 // expressions, attribute values, class lists, spreads, calls with and without blocks, if / else
 // if / for / switch / case headers, raw Go blocks, template parameter lists, script arguments.
@@ -471,7 +475,12 @@ var genGoShaped = rapid.Custom(func(t *rapid.T) string {
 	}
 	for i, n := 0, rapid.IntRange(1, 4).Draw(t, "nodes"); i < n; i++ {
 		e := expr("e")
-		switch rapid.IntRange(0, 15).Draw(t, "shape") {
+		switch rapid.IntRange(0, 17).Draw(t, "shape") {
+		case 16:
+			// text that reads like the continuation of the Go expression directly after its brace
+			sb.WriteString("\t{ " + e + " }" + rapid.SampledFrom(goConts).Draw(t, "cont") + "\n")
+		case 17:
+			sb.WriteString("\t<div title={ " + e + " }" + rapid.SampledFrom(goConts).Draw(t, "cont") + ">x</div>\n")
 		case 0:
 			sb.WriteString("\t{ " + e + " }\n")
 		case 1:
